@@ -14,25 +14,30 @@ from pathlib import Path
 from queue import Queue
 
 BEN = Path("/verif/benign")
-ROOT = Path("/tmp/bnw")
+ONLY = None
+ROOT = Path(os.environ.get("BNW", "/tmp/bnw"))
 ALL = [f"C{k:02d}" for k in range(1, 21)]
 args = sys.argv[1:]
-J, checks = 3, ALL
+J, checks, BASE = 3, ALL, "HEAD"
 while args and args[0].startswith("-"):
     if args[0] == "-j":
         J = int(args[1]); args = args[2:]
+    elif args[0] == "--base":  # another base commit (a change written against an older tree that does not apply to HEAD)
+        BASE = args[1]; args = args[2:]
+    elif args[0] == "--only":  # NAME_b5_k,... restrict to these
+        ONLY = args[1].split(","); args = args[2:]
     elif args[0] == "--checks":
         checks = ALL if args[1] == "all" else args[1].split(","); args = args[2:]
 src = Path(args[0]); names = args[1:]
 sh = lambda c, **k: subprocess.run(c, shell=True, capture_output=True, text=True, **k)  # noqa: E731
-head = sh("git -C /repo rev-parse --short HEAD").stdout.strip()
+head = sh(f"git -C /repo rev-parse --short {BASE}").stdout.strip()
 ROOT.mkdir(parents=True, exist_ok=True)
 pool = Queue()
 for k in range(J):
     wt = ROOT / f"wt{k}"
     if wt.exists():
         sh(f"git -C /repo worktree remove --force {wt}")
-    r = sh(f"git -C /repo worktree add --detach {wt} HEAD")
+    r = sh(f"git -C /repo worktree add --detach {wt} {BASE}")
     assert r.returncode == 0, r.stderr
     pool.put(wt)
 
@@ -53,15 +58,17 @@ for n in names:
             dst = BEN / f"{n}_b5_{k}"
             dst.mkdir(parents=True, exist_ok=True)
             for f in ("patch.diff", "demo.py", "notes.md"):
-                if (bd / f).exists():
+                if (bd / f).exists() and not (dst / f).exists():
                     shutil.copy(bd / f, dst / f)
-            jobs.append(dst)
+            if ONLY is None or dst.name in ONLY:
+                jobs.append(dst)
 
 
 def one(dst):
     wt = pool.get()
     try:
         meta = dict(focus=dst.name[:3], repo_head=head)
+        prev = json.loads((dst / "meta.json").read_text()) if (dst / "meta.json").exists() else {}
         r = sh(f"git -C {wt} apply {dst / 'patch.diff'}")
         if r.returncode != 0:
             meta["applies"] = False
@@ -88,7 +95,10 @@ def one(dst):
                 if o.returncode != 0:
                     lines = [l.strip()[:400] for l in o.stdout.splitlines() if l.startswith(("  [", "HARNESS", "VIOLATION"))][:4]
                     alarms.append(f"{p} rc={o.returncode}: " + " | ".join(lines))
-            meta["checks"] = res
+            # results of checks not re-run in this pass are kept from the previous pass (with the base commit they were obtained on)
+            meta["checks"] = dict(prev.get("checks", {}), **res)
+            meta["checks_head"] = dict(prev.get("checks_head", {k: prev.get("repo_head") for k in prev.get("checks", {})}), **{k: head for k in res})
+            alarms += [a for a in prev.get("alarms", []) if a[:3] in meta["checks"] and a[:3] not in res]
         finally:
             sh(f"git -C {wt} checkout -- . && git -C {wt} clean -fdq")
         meta["alarms"] = alarms
